@@ -9,7 +9,7 @@ CHECKS = {
                  "member is a regular file of positive size without link name, links have size 0 and no payload (payload_iff, links_have_no_payload); directories "
                  "carry a trailing slash (dir_trailing_slash); uid/gid/xattrs/device numbers/link name are carried over (identity_preserved); for every canonical "
                  "listing, whichever hard-link group members a filter removed, every link member of the archive the repaired WriteTar writes names an earlier "
-                 "member written as the file itself (tar_links_closed, from the closure theorem of C11). Correspondence: "
+                 "member written as the file itself (tar_links_closed, from the closure theorem of C11); the archived mode field reads back to exactly the permission and setuid/setgid/sticky bits of the entry, for every os.FileMode (mode_bits_round_trip). Correspondence: "
                  "WriteTar over in-memory and on-disk views (all types, long and non-UTF-8 names, xattrs, filters), archive read back with archive/tar and compared "
                  "member by member with the model; payload length = header size; 60% of the archives are extracted by an independent extractor (GNU tar as "
                  "root, -p --same-owner --xattrs) and the extracted tree is judged by the Lean tree specification of C01 against the view (mtimes to the second)."),
